@@ -1,6 +1,7 @@
 """Driver machinery: workers, Hypothesis wiring, replay files, known findings, evidence."""
 import hashlib
 import json
+import mmap
 import multiprocessing as mp
 import os
 import sys
@@ -116,6 +117,16 @@ class Ctx:
         self.cfg = None
         self.sub = None
         self.extra = {}
+        self.journal = None
+
+    def log_case(self, case):
+        """Journal the case about to run so that a crash of the library leaves a reproducer behind."""
+        j = self.journal
+        if j is not None:
+            data = json.dumps({"subcheck": self.sub, "config": self.cfg, "case": enc(case)}).encode()
+            if len(data) + 8 <= len(j):
+                j[8:8 + len(data)] = data
+                j[0:8] = len(data).to_bytes(8, "little")
 
     def count(self, case, nontrivial, cls=None):
         """Record one executed case. nontrivial: met the property's stated rule."""
@@ -159,6 +170,7 @@ def _run_sub(ctx, sub, cfg, n, libs):
     known = ctx.known
 
     def body(case):
+        ctx.log_case(case)
         try:
             sub.fn(ctx, env, case)
         except Violation as v:
@@ -186,9 +198,10 @@ def _run_sub(ctx, sub, cfg, n, libs):
     return None
 
 
-def _worker(mod, pid, tier, vseed, worker, nworkers, only_sub, conn):
+def _worker(mod, pid, tier, vseed, worker, nworkers, only_sub, conn, journal=None):
     try:
         ctx = Ctx(pid, tier, vseed, worker, nworkers)
+        ctx.journal = journal
         kn, _ = load_known()
         ctx.known = {(k["property"], k["signature"]): k for k in kn}
         from . import lib as libmod
@@ -233,11 +246,40 @@ def replay_case(mod, pid, path, times=3, quiet=False):
     env = sub.setup(cfg) if sub.setup else libmod.get(*(cfg.split(":") + [None])[:2])
     fails, msg = 0, ""
     for _ in range(times):
-        try:
-            sub.fn(ctx, env, case)
-        except Violation as v:
+        r, w = os.pipe()
+        child = os.fork()
+        if child == 0:
+            os.close(r)
+            code = 0
+            try:
+                sub.fn(ctx, env, case)
+            except Violation as v:
+                os.write(w, ("%s: %s" % (v.sig, v.msg)).encode()[:4000])
+                code = 1
+            except BaseException as e:  # harness problem
+                os.write(w, ("harness: %r" % (e,)).encode()[:4000])
+                code = 3
+            os._exit(code)
+        os.close(w)
+        data = b""
+        while True:
+            chunk = os.read(r, 65536)
+            if not chunk:
+                break
+            data += chunk
+        os.close(r)
+        _, status = os.waitpid(child, 0)
+        if os.WIFSIGNALED(status):
             fails += 1
-            msg = "%s: %s" % (v.sig, v.msg)
+            msg = "%s/crash: library call terminated by signal %d" % (sub.name, os.WTERMSIG(status))
+        elif os.WEXITSTATUS(status) == 1:
+            fails += 1
+            msg = data.decode(errors="replace")
+        elif os.WEXITSTATUS(status) == 3:
+            raise HarnessError(data.decode(errors="replace"))
+        elif os.WEXITSTATUS(status) != 0:
+            fails += 1
+            msg = "%s/crash: library call ended the process with status %d (sanitizer abort?)" % (sub.name, os.WEXITSTATUS(status))
     return fails == times, msg
 
 
@@ -260,23 +302,47 @@ def run_property(mod, pid, tier, vseed, nworkers=None, only_sub=None, extra_stat
     if hasattr(mod, "static_checks"):
         static = mod.static_checks(tier, vseed)   # dict: evaluations, nontrivial(list), samples, failures[(sub,case,sig,msg)], classes
 
+    # seconds-long replay tier: committed regression inputs of this property run first
+    regress = []
+    rdir = os.path.join(VERIF, "replays", "regress")
+    if os.path.isdir(rdir) and not only_sub:
+        for fn in sorted(os.listdir(rdir)):
+            if fn.startswith(pid + "-") and fn.endswith(".json"):
+                path = os.path.join(rdir, fn)
+                try:
+                    bad, msg = replay_case(mod, pid, path)
+                except HarnessError as e:
+                    sys.stderr.write("HARNESS ERROR replaying %s: %s\n" % (path, e))
+                    return 2
+                regress.append((path, bad, msg))
+
     ctxp = mp.get_context("fork")
     procs = []
     for w in range(nworkers):
         pc, cc = ctxp.Pipe(duplex=False)
-        p = ctxp.Process(target=_worker, args=(mod, pid, tier, vseed, w, nworkers, only_sub, cc))
+        jr = mmap.mmap(-1, 1 << 20)
+        p = ctxp.Process(target=_worker, args=(mod, pid, tier, vseed, w, nworkers, only_sub, cc, jr))
         p.start()
         cc.close()
-        procs.append((p, pc))
+        procs.append((p, pc, jr))
     agg = {"evaluations": 0, "nontrivial": set(), "classes": Counter(), "per_sub": Counter(), "per_cfg": Counter(), "samples": {},
            "known_hits": Counter(), "failures": [], "extra": {}}
     errors = []
-    for p, pc in procs:
+    crashes = []
+    for p, pc, jr in procs:
         try:
             kind, out = pc.recv()
         except EOFError:
-            kind, out = "error", "worker died without a result (crash / sanitizer abort?)"
+            kind, out = "crash", None
         p.join()
+        if kind == "crash":
+            n = int.from_bytes(jr[0:8], "little")
+            if n == 0:
+                errors.append("worker died before running any case (exit code %s)" % p.exitcode)
+            else:
+                j = json.loads(bytes(jr[8:8 + n]).decode())
+                crashes.append((j["subcheck"], j["config"], j["case"], p.exitcode))
+            continue
         if kind == "error":
             errors.append(out)
             continue
@@ -308,6 +374,9 @@ def run_property(mod, pid, tier, vseed, nworkers=None, only_sub=None, extra_stat
     if errors:
         sys.stderr.write("HARNESS ERROR in %s:\n%s\n" % (pid, errors[0]))
         return 2
+    for (s_, c_, case_enc, code) in crashes:
+        what = "signal %d" % -code if code is not None and code < 0 else "exit code %s" % code
+        agg["failures"].append((s_, c_, case_enc, "%s/crash" % s_, "the library call did not return: worker terminated by %s (memory fault / sanitizer abort) on this case" % what))
 
     kn, fixed = load_known()
     known = {(k["property"], k["signature"]): k for k in kn}
@@ -330,6 +399,13 @@ def run_property(mod, pid, tier, vseed, nworkers=None, only_sub=None, extra_stat
                 ok = True
         if ok:
             violations.append((path, sig, msg))
+    for path, bad, msg in regress:
+        if bad:
+            sig = msg.split(":")[0]
+            if (pid, sig) in known:
+                agg["known_hits"][sig] += 1
+            else:
+                violations.append((path, sig, msg))
     for sig, n in sorted(agg["known_hits"].items()):
         k = known.get((pid, sig))
         print("KNOWN-FINDING: property=%s %s [%s; %d cases excluded]" % (pid, k["what"] if k else sig, sig, n))
@@ -352,6 +428,7 @@ def run_property(mod, pid, tier, vseed, nworkers=None, only_sub=None, extra_stat
             "per_subcheck": dict(sorted(agg["per_sub"].items())),
             "per_config": dict(sorted((str(k), v) for k, v in agg["per_cfg"].items())),
             "excluded_known": dict(agg["known_hits"]),
+            "regression_replays": len(regress),
             "workers": nworkers,
             "exhaustive": False,
         },
